@@ -1,9 +1,128 @@
 import Driver.Proto
+import ScrapliModel.Failed
+/-!
+Line protocol for C13.
+
+request : `c13 <api> <drv> <op> <stop> <cmds> <outs> [ignored…]`
+* `api`  : `g.cmd n.cmd` (SendCommand) | `n.cfg` (SendConfig) | `d.multi` (NewResponse/Record/AppendResponse
+           directly) | anything else (SendCommands family)
+* `drv`  : hex list, the driver-level failure strings
+* `op`   : `n` (opoptions.WithFailedWhenContains not given) or `s` followed by a hex list (`s.` = given, empty)
+* `stop` : `1` iff opoptions.WithStopOnFailed given
+* `cmds` : hex list of commands (`g.cmd`/`n.cmd`: one element; `n.cfg`: one element, the config text)
+* `outs` : hex list; the device answers the i-th transmitted line with `outs[i]` (empty beyond)
+
+answer  : `<dom> <nolf> <spec> <model> <agree>`
+* `dom`   : `NoEmpty (effective op drv)` and the command list is non-empty
+* `nolf`  : `NoLF (effective op drv)`
+* `spec`  : what the property demands, computed declaratively (prefix rule on the device's answers)
+* `model` : what the model of the code computes (`sendCommand` / `sendCommands` / `sendConfig`)
+* `agree` : the model's outcome, projected to the spec's format, equals the spec (run-time echo of the theorems)
+-/
 namespace Driver
-open Scrapli
+open Scrapli Scrapli.Failed
+
+namespace C13
+
+def idxDev (outs : List Bytes) : Dev Nat := fun i _ => (i + 1, outs.getD i [])
+
+def joinWith (sep : String) (l : List String) : String :=
+  if l.isEmpty then "." else sep.intercalate l
+
+def showErr (e : OpErr) : String := s!"{toHex e.input};{toHex e.output};{toHex e.errStr}"
+
+def showFailure : Option Failure → String
+  | none => "0"
+  | some (.op e) => "1~" ++ showErr e
+  | some (.multi es) => "2~" ++ joinWith "," (es.map showErr)
+
+def showResp (r : Resp) : String :=
+  s!"{toHex r.input};{toHex r.result};{joinWith "+" (r.fwc.map toHex)};{showFailure r.failed}"
+
+def showSent (l : List Bytes) : String := "S" ++ joinWith "," (l.map toHex)
+
+def bits (l : List Bool) : String := if l.isEmpty then "." else String.join (l.map b2s)
+
+/-- inputs and outputs of the members an aggregate error must list -/
+def showMembers (cmds outs : List Bytes) (flags : List Bool) : String :=
+  joinWith "," (((cmds.zip outs).zip flags).filterMap fun ((c, o), f) =>
+    if f then some s!"{toHex c};{toHex o}" else none)
+
+/-- the property, declaratively, for the SendCommands family -/
+def specMulti (eff : List Bytes) (stop : Bool) (cmds outs : List Bytes) : String :=
+  if cmds.isEmpty then "Enoop" else
+  let outs' := (List.range cmds.length).map fun i => outs.getD i []
+  let flags := outs'.map (failedBy eff)
+  let n := sentCount stop flags
+  s!"{showSent (cmds.take n)}|B{bits (flags.take n)}|M{b2s ((flags.take n).any id)}|I{showMembers (cmds.take n) (outs'.take n) (flags.take n)}"
+
+def showFailMembers : Option Failure → String
+  | none => "."
+  | some (.op e) => s!"?op{toHex e.input}"
+  | some (.multi es) => joinWith "," (es.map fun e => s!"{toHex e.input};{toHex e.output}")
+
+/-- the model's `SendCommands` outcome in the format of `specMulti` -/
+def projMulti (m : Multi) (log : List Bytes) : String :=
+  s!"{showSent log}|B{bits (m.responses.map (·.failed.isSome))}|M{b2s m.failed.isSome}|I{showFailMembers m.failed}"
+
+/-- drop the per-member section (`SendConfig` hides the members) -/
+def dropBits (s : String) : String := "|".intercalate ((s.splitOn "|").filter fun p => !p.startsWith "B")
+
+def parseOp (s : String) : Option (Option (List Bytes)) :=
+  if s == "n" then some none
+  else if s.startsWith "s" then (hexList (s.drop 1).toString).map some
+  else none
+
+def handle (api : String) (drv : List Bytes) (opF : Option (List Bytes)) (stop : Bool)
+    (cmds outs : List Bytes) : String :=
+  -- `d.multi` drives the response package alone: no operation options are involved
+  let op := if api == "d.multi" then { fwc := [], stop := false } else newOperation opF stop
+  -- the spec side uses what the caller asked for, not what `newOperation` makes of it
+  let eff := effective (opF.getD []) drv
+  let nolf := b2s (decide (NoLF eff))
+  let s0 : Sess Nat := { dev := 0, log := [] }
+  if api == "g.cmd" || api == "n.cmd" then
+    match cmds with
+    | [c] =>
+      let o := outs.getD 0 []
+      let (r, _, s') := sendCommand (idxDev outs) drv op s0 c
+      let spec := s!"{showSent [c]}|B{b2s (failedBy eff o)}"
+      let proj := s!"{showSent s'.log}|B{b2s r.failed.isSome}"
+      s!"{b2s (decide (NoEmpty eff))} {nolf} {spec} {showSent s'.log}|R{showResp r} {b2s (proj == spec)}"
+    | _ => "bad-op"
+  else if api == "n.cfg" then
+    match cmds with
+    | [config] =>
+      let lines := splitLF config
+      let spec := specMulti eff stop lines outs
+      let res := sendConfig (idxDev outs) drv op s0 config
+      let model := match res with
+        | (some r, s') => s!"{showSent s'.log}|R{showResp r}"
+        | (none, _) => "Enoop"
+      let proj := match res with
+        | (some r, s') => s!"{showSent s'.log}|M{b2s r.failed.isSome}|I{showFailMembers r.failed}"
+        | (none, _) => "Enoop"
+      s!"{b2s (decide (NoEmpty eff))} {nolf} {spec} {model} {b2s (proj == dropBits spec)}"
+    | _ => "bad-op"
+  else
+    let spec := specMulti eff stop cmds outs
+    let res := sendCommands (idxDev outs) drv op s0 cmds
+    let model := match res with
+      | (some m, s') => s!"{showSent s'.log}|R{joinWith "/" (m.responses.map showResp)}|F{showFailure m.failed}"
+      | (none, _) => "Enoop"
+    let proj := match res with
+      | (some m, s') => projMulti m s'.log
+      | (none, _) => "Enoop"
+    s!"{b2s (decide (NoEmpty eff) && !cmds.isEmpty)} {nolf} {spec} {model} {b2s (proj == spec)}"
+
+end C13
 
 /-- line-protocol handler for property C13 (arguments after the leading `c13` token) -/
 def handleC13 : List String → String
+  | api :: drv :: op :: stop :: cmds :: outs :: _ =>
+    match hexList drv, C13.parseOp op, hexList cmds, hexList outs with
+    | some drv, some opF, some cmds, some outs => C13.handle api drv opF (s2b stop) cmds outs
+    | _, _, _, _ => "bad-op"
   | _ => "bad-op"
 
 end Driver
